@@ -942,6 +942,25 @@ func (e *specEnv) lookupLocal(v *types.Var) (Term, bool) {
 		return Term{}, false
 	}
 	fn := fr.fn
+	// in loop clauses a parameter that is reassigned in the loop denotes its current value (header phi);
+	// old(name) still denotes the entry value
+	if e.loopHdr != nil && !e.inOld {
+		for _, in := range e.loopHdr.Instrs {
+			phi, ok := in.(*ssa.Phi)
+			if !ok {
+				break
+			}
+			if phi.Comment == v.Name() {
+				for _, p := range fn.Params {
+					if p.Object() == v {
+						if t, ok := fr.vals[phi]; ok {
+							return t, true
+						}
+					}
+				}
+			}
+		}
+	}
 	for _, p := range fn.Params {
 		if p.Object() == v {
 			return fr.val(p), true
@@ -1644,10 +1663,11 @@ func (e *specEnv) call(n *ast.CallExpr) Term {
 // copy of the clause's state; its effects and its own safety obligations are discarded.
 func (e *specEnv) pureCall(fobj *types.Func, recvExpr ast.Expr, n *ast.CallExpr) ([]Term, bool) {
 	vc := e.f.vc
-	if vc.binderDepth > 0 {
-		unsup("spec: function call %s under a quantifier", fobj.Name())
-	}
 	sig := fobj.Type().(*types.Signature)
+	if recvExpr != nil && types.IsInterface(sig.Recv().Type()) && isAssumedPure(normName(fobj.FullName())) {
+		// observer: an uninterpreted function of the receiver value (also fine under quantifiers)
+		return []Term{e.f.observer(fobj, e.eval(recvExpr))}, true
+	}
 	var args []Term
 	if recvExpr != nil {
 		rt := e.typeOf(recvExpr)
@@ -1675,6 +1695,17 @@ func (e *specEnv) pureCall(fobj *types.Func, recvExpr ast.Expr, n *ast.CallExpr)
 	}
 	for _, a := range n.Args {
 		args = append(args, e.eval(a))
+	}
+	if vc.binderDepth > 0 {
+		// allowed when the call does not depend on a bound variable: it is evaluated outside the binder
+		for _, a := range args {
+			if strings.Contains(a.S, "q!") {
+				unsup("spec: function call %s depends on a quantified variable", fobj.Name())
+			}
+		}
+		saved := vc.binderDepth
+		vc.binderDepth = 0
+		defer func() { vc.binderDepth = saved }()
 	}
 	fn := vc.P.prog.FuncValue(fobj)
 	if fn == nil || fn.Blocks == nil || !(vc.P.inRepo(fn) || inlineLib(fn)) {
